@@ -25,6 +25,7 @@ type scopeSpaceDef struct {
 	maxNodes int
 	others   []map[string]string
 	limit    int64 // >1: only the first limit programs of the range
+	oneLine  bool  // render the whole program on one line (sibling blocks share a line)
 }
 
 func (d scopeSpaceDef) count() int64 {
@@ -45,7 +46,14 @@ func (d scopeSpaceDef) at(i int64) *scopeCase {
 		lo = d.alpha.Count(d.minNodes - 1)
 	}
 	nv := int64(len(d.others))
-	return newScopeCase(d.alpha.Program(lo+i/nv), d.others[i%nv])
+	lines := d.alpha.Program(lo + i/nv)
+	if d.oneLine {
+		for k := range lines {
+			lines[k] = strings.TrimLeft(lines[k], " ")
+		}
+		lines = []string{strings.Join(lines, " ")}
+	}
+	return newScopeCase(lines, d.others[i%nv])
 }
 
 func scopeSpaces(tier string) []scopeSpaceDef {
@@ -53,17 +61,20 @@ func scopeSpaces(tier string) []scopeSpaceDef {
 	one := otherVariants[:1]
 	if tier == "thorough" {
 		return []scopeSpaceDef{
-			{"forms-1node", forms, 1, 1, otherVariants, 1},
-			{"forms-2nodes", forms, 2, 2, one, 1},
-			{"structure<=3", structure, 1, 3, one, 1},
-			{"structure<=2-all-second-files", structure, 1, 2, otherVariants, 1},
-			{"core-4nodes-depth3", coreA, 4, 4, one, 1},
+			{"forms-1node", forms, 1, 1, otherVariants, 1, false},
+			{"forms-2nodes", forms, 2, 2, one, 1, false},
+			{"structure<=3", structure, 1, 3, one, 1, false},
+			{"structure<=2-all-second-files", structure, 1, 2, otherVariants, 1, false},
+			{"structure<=3-on-one-line", structure, 1, 3, one, 1, true},
+			{"core-4nodes-depth3", coreA, 4, 4, one, 1, false},
 		}
 	}
 	return []scopeSpaceDef{
-		{"forms-1node", forms, 1, 1, otherVariants, 1},
-		{"structure<=2-all-second-files", structure, 1, 2, otherVariants, 1},
-		{"structure-3nodes", structure, 3, 3, one, 1},
+		{"forms-1node", forms, 1, 1, otherVariants, 1, false},
+		{"structure<=2-all-second-files", structure, 1, 2, otherVariants, 1, false},
+		{"structure<=2-on-one-line", structure, 1, 2, one, 1, true},
+		{"structure-3nodes", structure, 3, 3, one, 1, false},
+		{"structure-3nodes-on-one-line-first-80000", structure, 3, 3, one, 80000, true},
 	}
 }
 
